@@ -14,6 +14,15 @@ import z3
 
 def skolemize(goal, tag='sk'):
     consts = []
+    while True:
+        if z3.is_not(goal) and z3.is_quantifier(goal.arg(0)) and goal.arg(0).is_exists():
+            # not (exists x. P)  is  forall x. not P
+            q_ = goal.arg(0)
+            vs = [z3.Const('%s!%s!%d' % (tag, q_.var_name(k), len(consts) + k), q_.var_sort(k)) for k in range(q_.num_vars())]
+            consts += vs
+            goal = z3.Not(z3.substitute_vars(q_.body(), *reversed(vs)))
+            continue
+        break
     while z3.is_quantifier(goal) and goal.is_forall():
         vs = [z3.Const('%s!%s!%d' % (tag, goal.var_name(k), len(consts) + k), goal.var_sort(k))
               for k in range(goal.num_vars())]
@@ -221,15 +230,42 @@ def _occurrences(es):
     return occ
 
 
+def _consts(es):
+    out, seen = {}, set()
+    stack = list(es)
+    while stack:
+        x = stack.pop()
+        if x.get_id() in seen:
+            continue
+        seen.add(x.get_id())
+        if z3.is_quantifier(x):
+            stack.append(x.body())
+            continue
+        if z3.is_const(x) and x.decl().kind() == z3.Z3_OP_UNINTERPRETED:
+            out[str(x)] = x
+        stack.extend(x.children())
+    return out
+
+
+def _const_names(es):
+    return set(_consts(es))
+
+
 class _Preempted(Exception):
     pass
 
 
-def instantiate(hyps, goal, rounds=1, max_terms=12, extra=(), triggers=False, stop=None):
+def instantiate(hyps, goal, rounds=1, max_terms=12, extra=(), triggers=False, stop=None, focus=False):
     g, sk = skolemize(goal)
     pre = _snf(list(hyps) + [z3.Not(g)])
     qf, qs = _split_hyps(pre)
     facts = list(qf)
+    hsk = []
+    if not sk:
+        # an existential goal has no skolem constants of its own to start from: its witnesses are usually built from the skolem
+        # constants of existential *hypotheses* (e.g. a callee's raise condition) - constants that appear only after the normal form
+        before_ = _const_names(list(hyps) + [g])
+        hsk = [c_ for n_, c_ in _consts(qf).items() if n_ not in before_ and z3.is_int(c_)]
     if len(qs) <= 12 and not triggers:
         max_terms = max(max_terms, 26)       # small (local) proofs: saturate generously
     # index candidates next to the goal's skolem constants (array-property-fragment index set: t, t+1, t-1)
@@ -262,13 +298,77 @@ def instantiate(hyps, goal, rounds=1, max_terms=12, extra=(), triggers=False, st
                 sorts[str(q.var_sort(k))] = q.var_sort(k)
         goal_first = [z3.Not(g)]
         arrs = _frame_arrays(facts + qs, sorts)
-        terms = _ground_terms(goal_first + facts + inst_qf, list(sorts.values()), max_terms + 6 * r)
+        # an existential goal has no skolem constants of its own to start from: its witnesses are usually built from the most recent
+        # path facts (e.g. the skolem of a callee's raise condition), so those are harvested first
+        if not sk and hsk:
+            lim_ = max_terms + 6 * r
+            terms = _ground_terms(goal_first + inst_qf[::-1] + facts[::-1], list(sorts.values()), 400)
+            hids_ = {c_.get_id() for c_ in hsk}
+
+            def mentions(t_):
+                stack, seen_ = [t_], set()
+                while stack:
+                    x_ = stack.pop()
+                    if x_.get_id() in hids_:
+                        return 0
+                    if x_.get_id() in seen_:
+                        continue
+                    seen_.add(x_.get_id())
+                    stack.extend(x_.children())
+                return 1
+            for sn_ in list(terms):
+                terms[sn_] = sorted(terms[sn_], key=lambda t_: (mentions(t_), len(t_.sexpr())))[:lim_]       # witnesses built from the hypotheses' skolems first
+        else:
+            terms = _ground_terms(goal_first + facts + inst_qf, list(sorts.values()), max_terms + 6 * r)
+            if r >= 1 and sk and not triggers:
+                # later rounds: compound terms that the previous round built from the goal's own skolem constants (e.g. the flat position
+                # p*K + q of a pair) come first - they are what the remaining universal hypotheses have to be read at
+                skids_ = {c_.get_id() for c_ in sk}
+
+                def from_goal(t_):
+                    # how many of the goal's skolem constants the term is built from
+                    stack, seen_, found_ = [t_], set(), set()
+                    while stack:
+                        x_ = stack.pop()
+                        if x_.get_id() in seen_:
+                            continue
+                        seen_.add(x_.get_id())
+                        if x_.get_id() in skids_:
+                            found_.add(x_.get_id())
+                        stack.extend(x_.children())
+                    return len(found_)
+                late_ = _ground_terms(inst_qf[::-1], list(sorts.values()), 5000)
+                for sn_, ts_ in late_.items():
+                    have_ = {t_.get_id() for t_ in terms.get(sn_, [])}
+                    sc_ = {t_.get_id(): from_goal(t_) for t_ in ts_}
+                    add_ = sorted([t_ for t_ in ts_ if t_.get_id() not in have_ and sc_[t_.get_id()]], key=lambda t_: (-sc_[t_.get_id()], len(t_.sexpr())))[:8]
+                    terms[sn_] = add_ + terms.get(sn_, [])
         for e in list(extra) + offs:
             sn = str(e.sort())
             if sn in terms and all(not z3.eq(e, t) for t in terms[sn]):
                 terms[sn].append(e)
         if 'Int' in terms:
             terms['Int'] = terms['Int'] + goal_numerals
+        if focus and sk:
+            # focused mode: only terms built from the goal's own skolem constants (plus the goal's numerals) - a small ground query
+            # that is tried before the broad one
+            skf_ = {c_.get_id() for c_ in sk}
+
+            def built_from_goal(t_):
+                stack, seen_ = [t_], set()
+                while stack:
+                    x_ = stack.pop()
+                    if x_.get_id() in skf_:
+                        return True
+                    if x_.get_id() in seen_:
+                        continue
+                    seen_.add(x_.get_id())
+                    stack.extend(x_.children())
+                return False
+            for sn_ in list(terms):
+                keep_ = [t_ for t_ in terms[sn_] if built_from_goal(t_)][:10]
+                if keep_:
+                    terms[sn_] = keep_ + ([t_ for t_ in goal_numerals[:2]] if sn_ == 'Int' else [])
         for sn, alist in arrs.items():
             for a in alist:
                 for t in terms.get('Int', [])[:max_terms]:
@@ -396,6 +496,35 @@ def _check(assertions, timeout_ms, tactic=None):
     return str(r), s
 
 
+def _check_racing(assertions, timeout_ms, bg):
+    """_check, but given up as soon as the fresh-process query `bg` has answered (z3's interrupt is the documented way to stop a
+    running check from another thread; the ctypes call releases the interpreter lock)"""
+    if bg is None:
+        return _check(assertions, timeout_ms)
+    import threading
+    stop = threading.Event()
+
+    def watch():
+        while not stop.is_set():
+            if bg.answered():
+                try:
+                    z3.main_ctx().interrupt()
+                except Exception:
+                    pass
+                return
+            stop.wait(0.1)
+    th = threading.Thread(target=watch, daemon=True)
+    th.start()
+    try:
+        try:
+            return _check(assertions, timeout_ms)
+        except z3.Z3Exception:
+            return 'unknown', None
+    finally:
+        stop.set()
+        th.join(timeout=1)
+
+
 class _CliJob:
     """a fresh solver process on the SMT-LIB text of a query, started in the background (so that the in-process
     instantiation and the fresh process race instead of queueing: whichever decides first wins)"""
@@ -416,16 +545,25 @@ class _CliJob:
     def result(self, wait_s):
         """'unsat' / 'sat' / 'unknown'; waits at most wait_s more seconds"""
         import subprocess
+        if getattr(self, 'outcome', None) is not None:
+            return self.outcome
         if self.p is None:
-            return 'unknown'
+            self.outcome = 'unknown'
+            return self.outcome
         try:
             out, _ = self.p.communicate(timeout=max(0.05, wait_s))
         except subprocess.TimeoutExpired:
             self.kill()
-            return 'unknown'
+            self.outcome = 'unknown'
+            return self.outcome
         self.kill()
         first = ((out or '').strip().splitlines() or ['unknown'])[0].strip()
-        return first if first in ('unsat', 'sat') else 'unknown'
+        self.outcome = first if first in ('unsat', 'sat') else 'unknown'
+        return self.outcome
+
+    def answered(self):
+        """finished with a definite answer (a finished process that timed out is no reason to stop the in-process work)"""
+        return self.done() and self.result(0.2) in ('unsat', 'sat')
 
     def done(self):
         return self.p is None or self.p.poll() is not None
@@ -478,7 +616,7 @@ def _model_values(s, want):
     return out
 
 
-DEFAULT_STRATEGIES = tuple(os.environ.get('VERIF_STRATEGIES', 'z3quick,inst,cli,tinst,z3,inst2').split(','))
+DEFAULT_STRATEGIES = tuple(os.environ.get('VERIF_STRATEGIES', 'z3quick,inst,cli,finst2,inst2,tinst,z3').split(','))
 
 
 def decide(axioms, vc, budget_s, pins=None, want=None, strategies=None, seed=0):
@@ -486,6 +624,10 @@ def decide(axioms, vc, budget_s, pins=None, want=None, strategies=None, seed=0):
     if strategies is None and getattr(vc, 'local', False):
         # local proofs have few hypotheses: the trigger-directed instantiation is cheap there and is what they usually need
         strategies = ('z3quick', 'tinst', 'inst', 'cli', 'z3', 'inst2')
+    if strategies is None and z3.is_quantifier(vc.goal) and vc.goal.is_exists():
+        # an existential goal (e.g. "the exception is raised only if some element is out of range"): its witness is usually two
+        # instantiation rounds away from the skolem constant of an existential hypothesis
+        strategies = ('z3quick', 'inst2', 'cli', 'tinst', 'z3', 'inst3')
     strategies = strategies or DEFAULT_STRATEGIES
     t0 = time.time()
     if seed:
@@ -503,17 +645,17 @@ def decide(axioms, vc, budget_s, pins=None, want=None, strategies=None, seed=0):
         if left < 0.3 and not (bg is not None and strat == 'cli'):
             break
         try:
-            if strat in ('inst', 'tinst') and bg is None and not bg_used and 'cli' in strategies[si + 1:] and left > 3:
+            if strat in ('inst', 'inst2', 'finst2', 'tinst') and bg is None and not bg_used and 'cli' in strategies[si + 1:] and left > 3:
                 bg_used = True
                 try:
                     bg = _CliJob(hyps + [z3.Not(vc.goal)], max(5.0, min(left * 0.8, 15.0)))
                 except Exception:
                     bg = None
-            if strat in ('inst', 'inst2', 'inst3', 'tinst'):
-                rounds, mt = {'inst': (1, 10), 'inst2': (2, 12), 'inst3': (3, 10), 'tinst': (3, 8)}[strat]
+            if strat in ('inst', 'inst2', 'inst3', 'tinst', 'finst2'):
+                rounds, mt = {'inst': (1, 10), 'inst2': (2, 12), 'inst3': (3, 10), 'tinst': (3, 8), 'finst2': (2, 12)}[strat]
                 try:
                     facts = instantiate(hyps, vc.goal, rounds=rounds, max_terms=mt, extra=vc.hints, triggers=(strat == 'tinst'),
-                                        stop=(bg.done if bg is not None else None))
+                                        stop=(bg.answered if bg is not None else None), focus=(strat == 'finst2'))
                 except _Preempted:
                     facts = None
                 if bg is not None and bg.done():
@@ -525,21 +667,36 @@ def decide(axioms, vc, budget_s, pins=None, want=None, strategies=None, seed=0):
                         break
                     cli_answered = True      # already answered: unknown
                 if facts is None:
-                    facts = instantiate(hyps, vc.goal, rounds=rounds, max_terms=mt, extra=vc.hints, triggers=(strat == 'tinst'))
-                r, s = _check(facts, min(left * 0.25, 6.0) * 1000 if strat in ('inst', 'tinst') else left * 1000 * 0.6)
-                if r != 'unsat' and any('*' in f.sexpr() for f in facts[:400]):
-                    r2, s2 = _check(abstract_nl(facts), left * 1000 * 0.25)      # same instances with products made opaque
+                    facts = instantiate(hyps, vc.goal, rounds=rounds, max_terms=mt, extra=vc.hints, triggers=(strat == 'tinst'), focus=(strat == 'finst2'))
+                r, s = _check_racing(facts, min(left * 0.25, 6.0) * 1000 if strat in ('inst', 'tinst', 'finst2') else left * 1000 * 0.6, bg)
+                if r != 'unsat' and not (bg is not None and bg.answered()) and any('*' in f.sexpr() for f in facts[:400]):
+                    r2, s2 = _check_racing(abstract_nl(facts), left * 1000 * 0.25, bg)      # same instances with products made opaque
                     if r2 == 'unsat':
                         r, s = r2, s2
                 res['tried'].append((strat, r, round(time.time() - t0, 3)))
                 if r == 'unsat':
                     res.update(status='unsat', by=strat)
                     break
+                if bg is not None and bg.done():
+                    rb = bg.result(0.2)
+                    bg = None
+                    res['tried'].append(('cli', rb, round(time.time() - t0, 3)))
+                    if rb == 'unsat':
+                        res.update(status='unsat', by='z3-cli')
+                        break
+                    cli_answered = True
             elif strat == 'cli' and cli_answered and bg is None:
                 continue
             elif strat in ('cli', 'cli-old'):
                 if strat == 'cli' and bg is not None:
-                    # started before the instantiation stage: give it what is left of its own limit (at least 2 s, at most the budget)
+                    # started before the instantiation stage
+                    later_ = [x for x in strategies[si + 1:] if x in ('inst', 'inst2', 'inst3', 'tinst', 'finst2')]
+                    if later_ and not bg.done() and left > 2:
+                        # more in-process instantiation stages follow: let the process go on racing them (it is polled by those
+                        # stages and collected after the last one) instead of waiting here
+                        time.sleep(min(1.0, left * 0.1))
+                        if not bg.done():
+                            continue
                     r = bg.result(max(2.0, min(bg.timeout_s - (time.time() - bg.t0), max(left, 0) * 0.6)))
                     bg = None
                 else:
@@ -562,6 +719,13 @@ def decide(axioms, vc, budget_s, pins=None, want=None, strategies=None, seed=0):
         except z3.Z3Exception as ex:
             res['tried'].append((strat, 'error: %s' % ex, round(time.time() - t0, 3)))
     if bg is not None:
+        if res['status'] == 'unknown':
+            # the racing process is still running and nothing else decided: collect it with what is left of the budget
+            left = budget_s - reserve - (time.time() - t0)
+            rb = bg.result(max(0.5, min(bg.timeout_s - (time.time() - bg.t0), left)))
+            res['tried'].append(('cli', rb, round(time.time() - t0, 3)))
+            if rb == 'unsat':
+                res.update(status='unsat', by='z3-cli')
         bg.kill()
     if res['status'] != 'unsat' and pins:
         # definite refutation with pinned sizes
